@@ -418,9 +418,9 @@ fn read_check(ctx: &mut Ctx, rng: &mut Rng64, case: &Case, canon: &[u8], ops: &[
 }
 
 fn streams(ctx: &mut Ctx, item: &mut u64) {
-    let n_split = ctx.budget(240, 12_000);
-    let n_pairs = ctx.budget(6, 300);
-    let n_rand = ctx.budget(60, 3_000);
+    let n_split = ctx.budget(2_400, 12_000);
+    let n_pairs = ctx.budget(40, 300);
+    let n_rand = ctx.budget(600, 3_000);
     for kind in KINDS {
         // (1) splittings + into_seed
         for c in 0..n_split {
@@ -929,7 +929,7 @@ fn sampling<F: SField + UniformPath>(ctx: &mut Ctx, item: &mut u64) {
         }
     }
     let fixed = plans.len();
-    let extra = ctx.budget(3_600, 180_000) as usize;
+    let extra = ctx.budget(36_000, 180_000) as usize;
     for idx in 0..fixed + extra {
         *item += 1;
         if !ctx.mine(*item) {
@@ -962,7 +962,7 @@ fn sampling<F: SField + UniformPath>(ctx: &mut Ctx, item: &mut u64) {
         }
     }
     // try_from_random: the per-chunk rule itself, and StandardUniform sampling
-    let n_chunks = ctx.budget(400, 20_000);
+    let n_chunks = ctx.budget(4_000, 20_000);
     for c in 0..n_chunks {
         *item += 1;
         if !ctx.mine(*item) {
@@ -1015,7 +1015,7 @@ fn sampling<F: SField + UniformPath>(ctx: &mut Ctx, item: &mut u64) {
 /// Real XOF streams through `into_field_vec`: the reference is applied to the bytes of a canonical
 /// one-shot read of the same stream.
 fn real_streams<F: SField>(ctx: &mut Ctx, item: &mut u64) {
-    let cases = ctx.budget(24, 1_200);
+    let cases = ctx.budget(200, 1_200);
     for kind in KINDS {
         for c in 0..cases {
             *item += 1;
